@@ -12,7 +12,7 @@ NoPlan == [failDescribe |-> FALSE, failCreate |-> FALSE, noCapacity |-> FALSE, f
 
 IncCase(min, max, desired, nmemb, d, fleet, lc, types, subnets, tagging, plan) ==
   [kind |-> "inc", min |-> min, max |-> max, desired |-> desired, nmemb |-> nmemb, d |-> d, fleet |-> fleet, lifecycle |-> lc, types |-> types,
-   subnets |-> subnets, tagging |-> tagging, never |-> FALSE, prefail |-> 0,
+   subnets |-> subnets, tagging |-> tagging, never |-> FALSE, prefail |-> 0, preInc |-> 0,
    failDescribe |-> plan.failDescribe, failCreate |-> plan.failCreate, noCapacity |-> plan.noCapacity, failSet |-> plan.failSet,
    failAttach |-> plan.failAttach, failTerm |-> <<>>, failNodes |-> <<>>, list |-> <<>>]
 
@@ -24,6 +24,8 @@ FleetVariants ==
   {IncCase(0, 100, 3, 3, d, TRUE, lc, ty, sn, tg, [NoPlan EXCEPT !.noCapacity = nc, !.failDescribe = fd]) :
      d \in {0, 21, 98}, lc \in {"", "on-demand", "spot"}, ty \in {0, 2}, sn \in {1, 3}, tg \in BOOLEAN, nc \in BOOLEAN, fd \in {FALSE}}
   \cup {IncCase(0, 100, 3, 3, 5, TRUE, "", 0, 1, FALSE, [NoPlan EXCEPT !.failDescribe = TRUE])}
+  \* a second scale-up of the same group by the same provider object, with the same or another delta (fleet and plain)
+  \cup {[IncCase(0, 100, 3, 3, d, fl, lc, 0, 1, FALSE, NoPlan) EXCEPT !.preInc = p] : d \in {1, 2, 21}, p \in {1, 2, 30}, fl \in BOOLEAN, lc \in {"", "spot"}}
 
 Names == {"m1", "m2", "m3", "x1"}
 Pairs == {p \in Names \X Names : p[1] # p[2]}
@@ -32,7 +34,7 @@ Lists == {<<a>> : a \in Names} \cup Pairs
          \cup (IF Tier = "quick" THEN {<<"m1", "x1", "m2">>, <<"m3", "m2", "m1">>, <<"m1", "m2", "x1">>} ELSE Triples)
 DelCase(min, desired, nmemb, list, fail) ==
   [kind |-> "del", min |-> min, max |-> 10, desired |-> desired, nmemb |-> nmemb, d |-> 0, fleet |-> FALSE, lifecycle |-> "", types |-> 0, subnets |-> 1,
-   tagging |-> FALSE, never |-> FALSE, prefail |-> 0, failDescribe |-> FALSE, failCreate |-> FALSE, noCapacity |-> FALSE, failSet |-> FALSE,
+   tagging |-> FALSE, never |-> FALSE, prefail |-> 0, preInc |-> 0, failDescribe |-> FALSE, failCreate |-> FALSE, noCapacity |-> FALSE, failSet |-> FALSE,
    failAttach |-> 0, failTerm |-> <<>>, failNodes |-> fail, list |-> list]
 DelGrid ==
   {DelCase(mn, ds, nm, l, f) : mn \in {0, 1, 2}, ds \in {1, 2, 3, 4}, nm \in {2, 3, 5}, l \in Lists,
